@@ -58,6 +58,11 @@ def gen_case(rng, level=None):
             lines.append("trickle %d" % t)
             kinds.add("partial-frame-bytes")
             trickled = True
+        elif r < 0.8 and level != "unit" and rng.random() < 0.15:
+            # a request whose handler takes a while (it ends before, at or after the period has run out): what counts is when
+            # the message was RECEIVED
+            lines.append("recvslow %d %d" % (t, rng.choice([max(1, period // 2), max(1, period - 1), period + 1])))
+            kinds.add("slow-handler")
         elif r < 0.8:
             if rng.random() < 0.6:
                 k = rng.choice(["ping", "ack", "rst", "non"])
